@@ -40,6 +40,7 @@ func init() {
 			py.MustNewMethod("log", hostLog, 0, "log(*values): append canonical renderings to the trace"),
 			py.MustNewMethod("exc_name", hostExcName, 0, "exc_name(e): class name of an exception instance"),
 			py.MustNewMethod("exc_loc", hostExcLoc, 0, "exc_loc(e): (filename, lineno) an exception instance carries, as an embedder reads them"),
+			py.MustNewMethod("hcall", hostHcall, 0, "hcall(f, args, kwargs): the embedder calls f through py.Call, handing over its own tuple and dict"),
 			py.MustNewMethod("tick", hostTick, 0, "tick(i): side effect marker"),
 			py.MustNewMethod("tk", hostTk, 0, "tk(i, v): side effect marker i, returns v"),
 			py.MustNewMethod("echo", hostEcho, 0, "echo(v): reference-side stand-in for the interactive echo of a nested expression statement"),
@@ -139,6 +140,21 @@ func hostExcName(self py.Object, args py.Tuple) (py.Object, error) {
 		return py.String("class:" + e.Name), nil
 	}
 	return py.String("notexc:" + args[0].Type().Name), nil
+}
+
+// hostHcall is an embedder calling a Python callable with py.Call: the kwargs
+// dict it passes is its OWN dict (in gpython a dict object is a py.StringDict),
+// which the call must treat like f(*args, **kwargs) treats its operands.
+func hostHcall(self py.Object, args py.Tuple) (py.Object, error) {
+	if len(args) != 3 {
+		return nil, py.ExceptionNewf(py.TypeError, "hcall takes three arguments")
+	}
+	a, ok1 := args[1].(py.Tuple)
+	k, ok2 := args[2].(py.StringDict)
+	if !ok1 || !ok2 {
+		return nil, py.ExceptionNewf(py.TypeError, "hcall(f, tuple, dict)")
+	}
+	return py.Call(args[0], a, k)
 }
 
 func hostExcLoc(self py.Object, args py.Tuple) (py.Object, error) {
